@@ -60,6 +60,9 @@ type kvElection struct {
 	onPromote func(ctx context.Context, token string)
 	onDemote  func()
 
+	// termCancel cancels the context handed to OnPromote for the current term (guarded by mu)
+	termCancel context.CancelFunc
+
 	// Connection monitoring
 	connectionMonitor ConnectionMonitor
 	disconnectHandler *disconnectHandler
@@ -420,6 +423,8 @@ func (e *kvElection) becomeLeader(token string, rev uint64) {
 				zap.String("token", token),
 			)...,
 		)
+		promoteCtx, cancel := context.WithCancel(e.ctx)
+		e.termCancel = cancel
 		e.wg.Add(1)
 		go func() {
 			defer e.wg.Done()
@@ -433,7 +438,6 @@ func (e *kvElection) becomeLeader(token string, rev uint64) {
 					)
 				}
 			}()
-			promoteCtx, cancel := context.WithCancel(e.ctx)
 			defer cancel()
 			e.onPromote(promoteCtx, token)
 		}()
@@ -510,6 +514,12 @@ func (e *kvElection) becomeFollower() bool {
 	e.isLeader.Store(false)
 	e.state.Store(StateFollower)
 	e.lastTransition.Store(time.Now())
+
+	// The term is over: cancel the context handed to OnPromote
+	if e.termCancel != nil {
+		e.termCancel()
+		e.termCancel = nil
+	}
 
 	if wasLeader {
 		e.recordLeaderDuration()
